@@ -32,6 +32,7 @@ def run(ctx):
         res, bad, _ = su.run_sessions(ctx, vh, [case], tag="replay")
         su.report(ctx, PROP, [case], res, bad)
         ctx.traces += 1
+        ctx.samples.append(case)
         return
     cases, npinned = su.build_cases(ctx, pairs, pingpong=0.7)
     known = [c for _, c in su.known_cases(ctx.thorough)]
